@@ -96,6 +96,21 @@ def canon(fi, e, inline=True):
     return ast.fix_missing_locations(_canon(fi, e, m))
 
 
+_sig_cache = {}
+
+
+def _plain_signature(name):
+    """positional parameter names of the package's plain (module-level) function `name` if that name is unique, else None"""
+    from .model import program
+    prog = program()
+    k = (id(prog), name)
+    if k not in _sig_cache:
+        fs = [f for f in prog.functions.values() if f.cls is None and f.parent is None and f.name == name and f.module.short != 'stdlib/collections']
+        sigs = {tuple(f.params) for f in fs}
+        _sig_cache[k] = list(sigs.pop()) if len(sigs) == 1 and fs and fs[0].node.args.vararg is None else None
+    return _sig_cache[k]
+
+
 def parse_pat(s):
     return ast.parse(s, mode='eval').body
 
@@ -204,6 +219,22 @@ def _m(p, e, b):
         bb = _m(p.func, e.func, b)
         if bb is None:
             return None
+        # one calling convention for package functions: `tr2rpy(x, 'deg')` and `tr2rpy(x, unit='deg')` are the same call -- when
+        # the callee is a uniquely named plain function of the package, both sides are bound to its parameter names first
+        sig = _plain_signature(p.func.id) if isinstance(p.func, ast.Name) and isinstance(e.func, ast.Name) and p.func.id == e.func.id else None
+        if sig is not None and not any(isinstance(a, ast.Starred) for a in list(p.args) + list(e.args)) and \
+                not any(k.arg is None for k in list(p.keywords) + list(e.keywords)) and len(p.args) <= len(sig) and len(e.args) <= len(sig):
+            pb = dict(zip(sig, p.args))
+            pb.update({k.arg: k.value for k in p.keywords})
+            eb = dict(zip(sig, e.args))
+            eb.update({k.arg: k.value for k in e.keywords})
+            if set(pb) != set(eb):
+                return None
+            for k in pb:
+                bb = _m(pb[k], eb[k], bb)
+                if bb is None:
+                    return None
+            return bb
         # a trailing Starred metavariable `*_REST` absorbs remaining args
         pargs = list(p.args)
         if pargs and isinstance(pargs[-1], ast.Starred) and is_meta(pargs[-1].value):
